@@ -80,7 +80,7 @@ _w("C12", 25, 600,
    ["wrappers are real go-kms-wrapping aead wrappers (honour associated data)",
     "'node-side registration nonce' is looked for in NodeCredentials records only (the server's own copy in NodeInformation is not covered by the statement)"])
 _w("C13", 20, 600,
-   "runs 0..125 enumerate completely: for each of 21 flows (authorize; fetch node-led / token / wrapper / re-wrapped; token creation; root rotation on empty storage, at promotion time, as no-op, with reinitialize; node rotation by key ID and by node ID; a repeated wrapper-flow fetch; a replayed rotation payload; server-certificate generation; node-side (also the token variant) NewNodeCredentials and HandleFetchNodeCredentialsResponse; and protocol.Dial of a pending node against the real listener with the fault in the server storage, in the node storage, and in the token variant) x 3 back ends x storage wrapper on/off, a fault-free pilot counts the n storage operations of the call and then every position 0..n-1 x {generic error, injected not-found, cancelled context} is executed in a fresh world; later runs sample double faults. Non-trivial: every faulted execution; distinct by (flow, back end, wrapper, position(s), kind(s)).",
+   "runs 0..125 enumerate completely: for each of 21 flows (authorize; fetch node-led / token / wrapper / re-wrapped; token creation; root rotation on empty storage, at promotion time, as no-op, with reinitialize; node rotation by key ID and by node ID; a repeated wrapper-flow fetch; a replayed rotation payload; server-certificate generation; node-side (also the token variant) NewNodeCredentials and HandleFetchNodeCredentialsResponse; and protocol.Dial of a pending node against the real listener with the fault in the server storage, in the node storage, and in the token variant) x 3 back ends x storage wrapper on/off, a fault-free pilot counts the n storage operations of the call and then every position 0..n-1 x {generic error, injected not-found, cancelled context, write applied but reported failed, crash (this and all later operations fail)} is executed in a fresh world; later runs sample double faults. Non-trivial: every faulted execution; distinct by (flow, back end, wrapper, position(s), kind(s)).",
    ["a cancelled-context fault cancels the context the harness handed to the library and fails that call; back ends that ignore contexts (file) keep working afterwards",
     "after every failed faulted call the honest caller retries once without fault and the same oracle is applied to the retry", "a failed call may legitimately have added a record for its own new key (node rotation whose second half failed)",
     "in the three Dial flows every simstore call and simnet operation is also a scheduling point (the tape picks the interleaving of node and server)"],
